@@ -6,9 +6,9 @@ from vlib.core import qlit, qvec, qmat, coqbool, natlist, blist
 
 OBLIGATIONS = dict(
     prop_file='Properties/C01.v',
-    glue=['Glue/CoreGlue.v'],
+    glue=['Glue/CoreGlue.v', 'Glue/EinopsGlue.v'],
     extra=['Model/CoreCheck.vo'],
-    gen_items=['k_cdist', 'g_gumbel_noise', 'o_euclid_collectives', 'o_cosine_collectives', 'o_rpq_eval', 'p_select'],
+    gen_items=['k_cdist', 'g_gumbel_noise', 'o_euclid_collectives', 'o_cosine_collectives', 'o_rpq_eval', 'p_select', 'pr_vq'],
 )
 ASSUMPTIONS = [
     'nn.Linear / LayerNorm projections, the QINCo MLP and SimVQ.code_transform are opaque: the harness applies the module\'s own sub-network and hands Coq its output ("after the quantizer\'s own input projection")',
